@@ -102,8 +102,12 @@ yprp_stmt(struct lys_ypr_ctx *pctx, struct lysp_stmt *stmt)
 
     if (lys_stmt_str(stmt->kw)) {
         if (lys_stmt_flags(stmt->kw) & LY_STMT_FLAG_YIN) {
+            /* the argument is a nested element, so the statement element cannot be empty */
+            flag = 1;
             ypr_open(pctx, stmt->stmt, NULL, NULL, flag);
+            LEVEL++;
             ypr_yin_arg(pctx, lys_stmt_arg(stmt->kw), stmt->arg);
+            LEVEL--;
         } else {
             ypr_open(pctx, stmt->stmt, lys_stmt_arg(stmt->kw), stmt->arg, flag);
         }
@@ -117,6 +121,8 @@ yprp_stmt(struct lys_ypr_ctx *pctx, struct lysp_stmt *stmt)
             yprp_stmt(pctx, childstmt);
         }
         LEVEL--;
+    }
+    if (flag == 1) {
         ypr_close(pctx, stmt->stmt, flag);
     }
 }
